@@ -1805,6 +1805,17 @@ def int_zoo(name):
     raise KeyError(name)
 
 
+def named_grader(name):
+    """(mode, grader) for the graders that are exercised in child processes"""
+    if name.startswith('Int'):
+        return (LIST if name.startswith('IntList') else BOTH if name == 'IntSum' else ITEM), int_zoo(name)
+    if name.startswith('Sib/'):
+        return sibling_zoo()[name]()
+    if name.startswith('Scope/'):
+        return scope_zoo()[name]()
+    raise KeyError(name)
+
+
 def int_towers(rng, names, extra):
     """power towers of height 3-5, nested powers and factor-free combinations built ONLY from integer-valued names"""
     a = names[0]
@@ -1850,14 +1861,13 @@ def int_tower_child():
         name = job['grader']
         try:
             if name not in graders:
-                graders[name] = int_zoo(name)
-            g = graders[name]
+                graders[name] = named_grader(name)
+            mode, g = graders[name]
             inp = build_object(job['input'])
             rec = observe_once(g, inp, None, job.get('seed', 0), job.get('alarm', 10))
-            mode = LIST if name.startswith('IntList') else BOTH if name == 'IntSum' else ITEM
             what = judge(mode, False, None, inp, rec)
             out = {'status': rec['status'], 'class': type(rec['val']).__name__ if rec['status'] == 'exc' else None,
-                   'message': str(rec['val'])[:160] if rec['status'] == 'exc' else None, 'what': what, 'seconds': round(rec['seconds'], 3)}
+                   'message': str(rec['val'])[:400] if rec['status'] == 'exc' else None, 'what': what, 'seconds': round(rec['seconds'], 3)}
         except BaseException as e:      # noqa
             out = {'status': 'child-error', 'class': type(e).__name__, 'message': str(e)[:300], 'what': None, 'seconds': 0}
         sys.stdout.write(json.dumps(out) + '\n')
@@ -1971,6 +1981,249 @@ def run_int_towers(ctx, res, rng):
 
 
 # ------------------------------------------------------------------------------------------------
+# sibling variables: ordered ListGraders of FormulaGraders whose answers use sibling_i (the sibling TEXTS become
+# DependentSamplers), plus DependentSamplers in the configuration; inputs valid / undefined / self-referential / mutually
+# cyclic.  Dependency resolution must come back: a result or a library error.  Runs in the child process (hard deadline).
+# ------------------------------------------------------------------------------------------------
+def sibling_zoo():
+    from mitxgraders import (FormulaGrader, ListGrader, StringGrader, NumericalGrader, DependentSampler, MatrixGrader,
+                             between_comparer)
+
+    def fg(**kw):
+        kw.setdefault('variables', ['x', 'y'])
+        return FormulaGrader(**kw)
+    dep = {'y': DependentSampler(depends=['x'], formula='x+1'), 'z': DependentSampler(depends=['y'], formula='y^2')}
+    return {
+        'Sib/2': lambda: (LIST, ListGrader(answers=['sibling_2^2', 'x'], subgraders=fg(), ordered=True)),
+        'Sib/3': lambda: (LIST, ListGrader(answers=['sibling_2*sibling_3', 'x', 'y'], subgraders=fg(), ordered=True)),
+        'Sib/3-last': lambda: (LIST, ListGrader(answers=['x', 'y', 'sibling_1+sibling_2'], subgraders=fg(), ordered=True)),
+        'Sib/4-chain': lambda: (LIST, ListGrader(answers=['sibling_3+sibling_4', 'sibling_3', 'x', 'y'], subgraders=fg(), ordered=True)),
+        'Sib/4-pairs': lambda: (LIST, ListGrader(answers=['sibling_2', 'x', 'sibling_4', 'y'], subgraders=fg(), ordered=True)),
+        'Sib/dep': lambda: (LIST, ListGrader(answers=['sibling_2+z', 'y'], ordered=True,
+                                             subgraders=fg(variables=['x', 'y', 'z'], sample_from=dep))),
+        'Sib/dep-comparer': lambda: (LIST, ListGrader(
+            answers=[{'comparer': between_comparer, 'comparer_params': ['sibling_2', 'sibling_3+z']}, 'x', 'z'], ordered=True,
+            subgraders=fg(variables=['x', 'y', 'z'], sample_from=dep))),
+        'Sib/mixed': lambda: (LIST, ListGrader(answers=['sibling_2+1', 'x', 'cat', '2'], ordered=True,
+                                               subgraders=[fg(), fg(), StringGrader(), NumericalGrader()])),
+        'Sib/matrix': lambda: (LIST, ListGrader(answers=['sibling_2*[1,2]', 'x'], ordered=True,
+                                                subgraders=MatrixGrader(variables=['x', 'y'], max_array_dim=1))),
+        'Sib/grouped': lambda: (LIST, ListGrader(answers=[['sibling_2', 'x'], ['sibling_2+y', 'y']], grouping=[1, 1, 2, 2], ordered=True,
+                                                 subgraders=ListGrader(subgraders=fg(), ordered=True))),
+        'Sib/dep-item': lambda: (ITEM, fg(answers='z', variables=['x', 'y', 'z'], sample_from=dep)),
+    }
+
+
+SIB_BOXES = {'Sib/2': 2, 'Sib/3': 3, 'Sib/3-last': 3, 'Sib/4-chain': 4, 'Sib/4-pairs': 4, 'Sib/dep': 2, 'Sib/dep-comparer': 3, 'Sib/mixed': 4,
+             'Sib/matrix': 2, 'Sib/grouped': 4, 'Sib/dep-item': 1}
+
+
+def sibling_inputs(rng, k, n_random):
+    """per box: valid, undefined, self-referential, cyclic, referring forwards / backwards, blank, failing"""
+    def choices(i):          # i is 1-based
+        nxt = i % k + 1
+        prv = (i - 2) % k + 1
+        return ['x', 'y', 'x*y', '2', 'q', 'nosuch(x)', 'sibling_%d+1' % i, 'sibling_%d' % nxt, 'sibling_%d*x' % prv, 'sibling_%d' % (k + 1),
+                'sibling_1', '', '1/0', 'z', 'sibling_%d+sibling_%d' % (nxt, prv), 'cat']
+    out = []
+    base = ['x', 'y', 'x*y', '2']
+    valid = [base[j % 4] for j in range(k)]
+    out.append(list(valid))
+    for i in range(1, k + 1):                      # one box at a time goes bad, the others stay valid
+        for c in choices(i):
+            v = list(valid)
+            v[i - 1] = c
+            out.append(v)
+    if k >= 2:                                     # cycles and chains
+        out.append(['sibling_%d' % (i % k + 1) for i in range(1, k + 1)])
+        out.append(['sibling_%d+1' % i for i in range(1, k + 1)])
+        out.append(['x'] + ['sibling_%d' % i for i in range(1, k)])
+        out.append(['sibling_%d' % i for i in range(2, k + 1)] + ['q'])
+        out.append(['sibling_%d' % i for i in range(2, k + 1)] + ['x'])
+    for _ in range(n_random):
+        out.append([rng.choice(choices(i)) for i in range(1, k + 1)])
+    return out
+
+
+def run_siblings(ctx, res, rng):
+    quick = ctx['tier'] == 'quick'
+    jobs = []
+    for name in sorted(SIB_BOXES):
+        k = SIB_BOXES[name]
+        for v in sibling_inputs(rng, k, 8 if quick else 150):
+            jobs.append({'grader': name, 'input': v[0] if k == 1 else ['list', v], 'seed': ctx['seed']})
+    child = TowerChild()
+    outcomes = {}
+    slow = 0.0
+    done = 0
+    try:
+        for job in jobs:
+            if child is None:
+                break
+            child, ans, hung = tower_call(child, job)
+            res.oracle_evals += 1
+            done += 1
+            if ans['status'] == 'child-error':
+                raise RuntimeError('sibling child failed on %s: %s %s' % (job['grader'], ans['class'], ans['message']))
+            k = ans.get('class') or ans['status']
+            outcomes[k] = outcomes.get(k, 0) + 1
+            slow = max(slow, ans.get('seconds', 0) or 0)
+            if ans.get('what'):
+                res.witnesses.append({'key': 'sibling:%s:%r' % (job['grader'], job['input']), 'kind': 'child-call', 'grader': job['grader'],
+                                      'input': job['input'], 'what': ans['what']})
+            if ans['status'] == 'exc':
+                res.nontrivial.add(('sibling', job['grader'], repr(job['input'])))
+            if hung:
+                res.notes.append('sibling stream stopped after the first call that did not terminate (%d of %d run)' % (done, len(jobs)))
+    finally:
+        if child is not None:
+            child.kill()
+    res.distribution['sibling_calls'] = done
+    res.distribution['sibling_outcomes'] = outcomes
+    res.distribution['sibling_slowest_s'] = slow
+
+
+# ------------------------------------------------------------------------------------------------
+# scopes: the same texts go to math graders with DIFFERENT scopes (a function / constant / variable / suffix present in one and
+# absent in another, whitelist / blacklist differing).  Reference: every configuration grades the texts alone in a fresh
+# interpreter.  Then, in this process, the configurations are interleaved in several orders: the class and message of every
+# outcome must be the fresh one (no state may leak through the shared parser or anything else).
+# ------------------------------------------------------------------------------------------------
+def scope_zoo():
+    import numpy as np
+    from mitxgraders import FormulaGrader, NumericalGrader, MatrixGrader, SingleListGrader, ListGrader, RandomFunction
+    sq = lambda x: x * x
+
+    def plain():
+        return FormulaGrader(answers='x+1', variables=['x'])
+
+    def with_f():
+        return FormulaGrader(answers='f(x)+1', variables=['x'], user_functions={'f': sq, 'g': np.tanh})
+    return {
+        'Scope/plain': lambda: (ITEM, plain()),
+        'Scope/f-g': lambda: (ITEM, with_f()),
+        'Scope/const': lambda: (ITEM, FormulaGrader(answers='c*x', variables=['x', 'y'], user_constants={'c': 3})),
+        'Scope/whitelist': lambda: (ITEM, FormulaGrader(answers='sin(x)+1', variables=['x'], whitelist=['sin', 'cos'])),
+        'Scope/blacklist': lambda: (ITEM, FormulaGrader(answers='x+1', variables=['x'], blacklist=['sin', 'tan'])),
+        'Scope/numerical-f': lambda: (ITEM, NumericalGrader(answers='2', user_functions={'f': lambda x: x + 1})),
+        'Scope/matrix-const': lambda: (ITEM, MatrixGrader(answers='c*x', variables=['x'], user_constants={'c': 2}, max_array_dim=1)),
+        'Scope/random-f': lambda: (ITEM, FormulaGrader(answers='f(x)+1', variables=['x', 'z'], user_functions={'f': RandomFunction()})),
+        'Scope/suffix': lambda: (ITEM, FormulaGrader(answers='x+1', variables=['x'], metric_suffixes=True)),
+        'Scope/numbered': lambda: (ITEM, FormulaGrader(answers='x+1', variables=['x'], numbered_vars=['c'])),
+        'Scope/singlelist-g': lambda: (ITEM, SingleListGrader(answers=['x+1', 'x'], subgrader=FormulaGrader(
+            variables=['x'], user_functions={'g': np.tanh}), ordered=True)),
+        'Scope/list-both': lambda: (LIST, ListGrader(answers=['f(x)+1', 'x+1'], subgraders=[with_f(), plain()], ordered=True)),
+        'Scope/list-both-reversed': lambda: (LIST, ListGrader(answers=['x+1', 'f(x)+1'], subgraders=[plain(), with_f()], ordered=True)),
+    }
+
+
+SCOPE_TEXTS = ['f(x)+1', 'f(x) + 1', 'x+1', 'g(x)', 'f(x)+g(x)', 'c*x', 'c', 'y', 'z', 'sin(x)+1', 'tan(x)', 'cos(x)+f(x)', 'f(c)', 'c*f(x)', '2k',
+               '2k+x', 'c_{1}', 'f(y)', 'f(2)', 'f(1)+1', 'g(f(x))', 'sin(x)+f(x)+c', 'F(x)+1', 'f(x,x)', 'x+c_{2}', 'sqrt(x)', 'abs(c)', '3%']
+
+
+def scope_jobs(name, mode):
+    if mode == LIST:
+        return [['list', [t, t]] for t in SCOPE_TEXTS]
+    if 'singlelist' in name:
+        return ['%s,%s' % (t, t) for t in SCOPE_TEXTS if ',' not in t] + list(SCOPE_TEXTS[:6])
+    return list(SCOPE_TEXTS)
+
+
+def scope_child():
+    """fresh interpreter: ONE configuration grades all its texts; prints {input repr: outcome}"""
+    import json
+    job = json.loads(sys.stdin.readline())
+    mode, g = scope_zoo()[job['grader']]()
+    out = []
+    for i, spec in enumerate(job['inputs']):
+        rec = observe_once(g, build_object(spec), None, 777 + i, 20)
+        out.append(scope_outcome(rec))
+    sys.stdout.write(json.dumps(out) + '\n')
+    sys.stdout.flush()
+
+
+def scope_outcome(rec):
+    if rec['status'] == 'exc':
+        return ['exc', type(rec['val']).__name__, str(rec['val'])]
+    return [rec['status'], None, None]
+
+
+def scope_reference():
+    """{(grader, index): outcome} computed by one fresh interpreter per configuration (in parallel)"""
+    import json
+    import os
+    import subprocess
+    env = dict(os.environ)
+    env['PYTHONPATH'] = os.pathsep.join([core.REPO, core.VERIF])
+    procs = []
+    plan = {}
+    for name, factory in sorted(scope_zoo().items()):
+        mode, _ = factory()
+        plan[name] = (mode, scope_jobs(name, mode))
+        p = subprocess.Popen([sys.executable, '-B', '-c', 'from harness.props import c02; c02.scope_child()'],
+                             stdin=subprocess.PIPE, stdout=subprocess.PIPE, stderr=subprocess.PIPE, env=env, cwd=core.VERIF)
+        p.stdin.write((json.dumps({'grader': name, 'inputs': plan[name][1]}) + '\n').encode())
+        p.stdin.flush()
+        procs.append((name, p))
+    ref = {}
+    for name, p in procs:
+        try:
+            out, err = p.communicate(timeout=300)
+        except subprocess.TimeoutExpired:
+            p.kill()
+            raise RuntimeError('fresh interpreter for %s did not finish' % name)
+        lines = [l for l in out.decode('utf-8', 'replace').splitlines() if l.startswith('[')]
+        if not lines:
+            raise RuntimeError('fresh interpreter for %s failed: %s' % (name, err.decode('utf-8', 'replace')[-400:]))
+        for i, o in enumerate(json.loads(lines[-1])):
+            ref[(name, i)] = o
+    return plan, ref
+
+
+def run_scopes(ctx, res, rng):
+    plan, ref = scope_reference()
+    names = sorted(plan)
+    graders = dict((n, scope_zoo()[n]()) for n in names)
+    orders = [names, names[::-1]]
+    for _ in range(1 if ctx['tier'] == 'quick' else 4):
+        o = list(names)
+        rng.shuffle(o)
+        orders.append(o)
+    n_diff = 0
+    last_seen = {}        # text (spaces removed) -> the call that last graded it
+    outcomes = {}
+    for oi, order in enumerate(orders):
+        for name in order:
+            mode, g = graders[name]
+            for i, spec in enumerate(plan[name][1]):
+                inp = build_object(spec)
+                rec = observe(g, inp, seed=777 + i, tag=(name, spec, None))
+                res.oracle_evals += 1
+                got = scope_outcome(rec)
+                k = got[1] or got[0]
+                outcomes[k] = outcomes.get(k, 0) + 1
+                what = judge(mode, False, None, inp, rec)
+                if what:
+                    res.witnesses.append({'key': 'scope-call:%s:%r' % (name, spec), 'kind': 'scope', 'grader': name, 'input': spec, 'index': i,
+                                          'order': order, 'what': what})
+                texts = [inp] if isinstance(inp, str) else list(inp)
+                key = tuple(t.replace(' ', '') for t in texts)
+                if got != ref[(name, i)]:
+                    n_diff += 1
+                    res.witnesses.append({'key': 'scope:%s:%r' % (name, spec), 'kind': 'scope', 'grader': name, 'input': spec, 'index': i,
+                                          'order': order[:order.index(name) + 1],
+                                          'what': 'the outcome depends on what the process graded before: in a fresh interpreter %r, here %r '
+                                                  '(the same text was last graded by %s)' % (ref[(name, i)], got, last_seen.get(key, 'nobody'))})
+                last_seen[key] = name
+                if got[0] == 'exc':
+                    res.nontrivial.add(('scope', name, repr(spec)))
+    res.distribution['scope_configurations'] = len(names)
+    res.distribution['scope_calls'] = sum(len(plan[n][1]) for n in names) * len(orders)
+    res.distribution['scope_outcomes'] = outcomes
+    res.distribution['scope_history_differences'] = n_diff
+
+
+# ------------------------------------------------------------------------------------------------
 def run(ctx):
     """LAPACK writes diagnostics for degenerate fits straight to file descriptor 1: keep them out of the check's output"""
     import os
@@ -2043,6 +2296,10 @@ def _run(ctx):
     run_int_towers(ctx, res, rng)
     phases['integer-towers'] = round(time.time() - t0, 1)
     t0 = time.time()
+    run_siblings(ctx, res, rng)
+    run_scopes(ctx, res, rng)
+    phases['siblings+scopes'] = round(time.time() - t0, 1)
+    t0 = time.time()
     run_braces(ctx, res, rng)
     run_attempts(ctx, res, rng)
     # history: everything above were the perturbers; now the probes and the anticipated-problem table again
@@ -2113,7 +2370,21 @@ def replay(w):
         res = run(ctx)
         hit = [x for x in res.witnesses if x.get('kind') == kind and x.get('grader') == w.get('grader') and x.get('input') == w.get('input')]
         return bool(hit), 'history-dependent outcome for %s on %r: %s' % (w.get('grader'), w.get('input'), hit[0]['what'] if hit else 'not reproduced')
-    if kind == 'int-tower':
+    if kind == 'scope':
+        plan, ref = scope_reference()
+        graders = dict((n, scope_zoo()[n]()) for n in plan)
+        got = None
+        for name in w['order']:
+            mode, g = graders[name]
+            for i, spec in enumerate(plan[name][1]):
+                rec = observe(g, build_object(spec), seed=777 + i, tag=(name, spec, None))
+                if name == w['grader'] and i == w['index']:
+                    got = scope_outcome(rec)
+                    what = judge(mode, False, None, build_object(spec), rec)
+        want = ref[(w['grader'], w['index'])]
+        return got != want or bool(what), '%s on %r after %r: fresh interpreter %r, here %r%s' % (
+            w['grader'], w['input'], w['order'][:-1], want, got, '; ' + what if what else '')
+    if kind in ('int-tower', 'child-call'):
         child = TowerChild()
         child, ans, hung = tower_call(child, {'grader': w['grader'], 'input': w['input'], 'seed': 0})
         if child is not None:
